@@ -3,6 +3,7 @@ package main
 import (
 	"bytes"
 	"fmt"
+	"net"
 	"sync"
 )
 
@@ -10,7 +11,41 @@ const udpRule = "case = key list (mixed ciphers, duplicates) + 3..12 datagram op
 
 func genUDPCase(r *Rng, prop string) udpCaseSpec {
 	nkeys := []int{1, 2, 4, 8}[r.Intn(4)]
-	cs := udpCaseSpec{Cfg: genCfg(r, nkeys, nkeys+2), Validate: r.Chance(12)}
+	cs := udpCaseSpec{Cfg: genCfg(r, nkeys, nkeys+2), Validate: r.Chance(45)}
+	if prop == "C05" {
+		cs.Validate = true
+	}
+	avail := ensureLocalAddrs()
+	var kinds []int
+	for i, k := range targetKinds {
+		if k.ip == "" || net.ParseIP(k.ip).IsLoopback() || avail[k.ip] {
+			kinds = append(kinds, i)
+		}
+	}
+	if prop == "C05" && r.Chance(50) {
+		// a flow that opens an association with an allowed target and then keeps probing
+		// non-public ones: the same one twice in a row, another one, the first again
+		var pub, priv []int
+		for _, k := range kinds {
+			if targetKinds[k].public {
+				pub = append(pub, k)
+			} else if targetKinds[k].ip != "" {
+				priv = append(priv, k)
+			}
+		}
+		if len(pub) > 0 && len(priv) > 1 {
+			pick := cs.Cfg[r.Intn(len(cs.Cfg))]
+			client := r.Intn(5)
+			x, y := priv[r.Intn(len(priv))], priv[r.Intn(len(priv))]
+			for _, k := range []int{pub[r.Intn(len(pub))], x, x, y, x, pub[r.Intn(len(pub))], y, y} {
+				op := udpOp{Kind: "honest", Client: client, C: pick.C, S: pick.S, Seed: uint32(r.U64()), AKind: k,
+					PLen: []int{1, 10, 100}[r.Intn(3)], PSeed: int(r.U64() % 1000000)}
+				op.Key = fmt.Sprintf("%d/%d", op.C, op.S)
+				cs.Ops = append(cs.Ops, op)
+			}
+			return cs
+		}
+	}
 	nops := r.Range(3, 12)
 	expired := false
 	for i := 0; i < nops; i++ {
@@ -20,15 +55,39 @@ func genUDPCase(r *Rng, prop string) udpCaseSpec {
 			continue
 		}
 		pick := cs.Cfg[r.Intn(len(cs.Cfg))]
-		op := udpOp{Kind: "honest", Client: r.Intn(4), C: pick.C, S: pick.S, Seed: uint32(r.U64()),
-			AKind: []int{0, 0, 0, 1, 2, 3}[r.Intn(6)], Target: r.Intn(2),
-			PLen: []int{0, 1, 10, 100, 1200, 1400}[r.Intn(6)], PSeed: int(r.U64() % 1000000)}
+		akind := kinds[r.Intn(len(kinds))]
+		if r.Chance(45) { // mostly reachable-and-allowed targets, so that associations exist
+			for _, k := range []int{4, 4, 11, 14, 15, 0} {
+				if (cs.Validate && targetKinds[k].public || !cs.Validate) && (net.ParseIP(targetKinds[k].ip).IsLoopback() || avail[targetKinds[k].ip]) {
+					akind = k
+					break
+				}
+			}
+		}
+		client := r.Intn(5)
+		if n := len(cs.Ops); n > 0 && cs.Ops[n-1].Kind == "honest" && r.Chance(35) {
+			// same client again, often to the same destination: the second datagram of a flow
+			client = cs.Ops[n-1].Client
+			if r.Chance(60) {
+				akind = cs.Ops[n-1].AKind
+			}
+			if r.Chance(70) {
+				pick.C, pick.S = cs.Ops[n-1].C, cs.Ops[n-1].S
+			}
+		}
+		op := udpOp{Kind: "honest", Client: client, C: pick.C, S: pick.S, Seed: uint32(r.U64()),
+			AKind: akind,
+			PLen:  []int{0, 1, 10, 100, 1200, 1400}[r.Intn(6)], PSeed: int(r.U64() % 1000000)}
 		if r.Chance(4) {
 			op.PLen = []int{9000, 30000}[r.Intn(2)]
 		}
 		nr := []int{0, 1, 1, 2}[r.Intn(4)]
 		for j := 0; j < nr; j++ {
-			op.Replies = append(op.Replies, [2]int{[]int{0, 1, 50, 500, 1400}[r.Intn(5)], int(r.U64() % 1000000)})
+			sz := []int{0, 1, 50, 500, 1400}[r.Intn(5)]
+			if r.Chance(6) || (op.Client == 4 && r.Chance(30)) { // around the limit of what fits the relay buffer
+				sz = []int{65400, 65469, 65470, 65485, 65507}[r.Intn(5)]
+			}
+			op.Replies = append(op.Replies, [2]int{sz, int(r.U64() % 1000000)})
 		}
 		switch c := r.Intn(100); {
 		case c < 8:
@@ -174,13 +233,13 @@ func udpMonitors(ctx *Ctx, prop string, cs *udpCaseSpec, obs []udpOpObs, shutdow
 		} else {
 			shouldForward = valid && okKey
 		}
-		if cs.Validate {
+		if cs.Validate && !targetKinds[op.AKind].public {
 			shouldForward = false
 		}
 		if ob.Forwarded && !shouldForward {
 			sig := "C03/unauthenticated-or-invalid-datagram-forwarded"
-			if cs.Validate && valid {
-				sig = "C05/datagram-to-non-public-destination"
+			if cs.Validate && valid && !targetKinds[op.AKind].public {
+				sig = "C05/datagram-to-non-public-destination:" + targetKinds[op.AKind].name
 			}
 			ctx.Monitor(sig, fmt.Sprintf("op %d (%s) was forwarded to a target", i, op.Kind), rep)
 		}
@@ -225,12 +284,20 @@ func udpMonitors(ctx *Ctx, prop string, cs *udpCaseSpec, obs []udpOpObs, shutdow
 			}
 			for ri, rp := range ob.Replies {
 				want := genBytes(op.Replies[ri][0], uint32(op.Replies[ri][1]))
-				if !bytes.Equal(rp.Body, want) {
+				if rp.Status == "OK" && len(rp.Body) < len(want) && bytes.Equal(rp.Body, want[:len(rp.Body)]) {
+					ctx.Monitor("C03/reply-truncated", fmt.Sprintf("the client received %d of the %d bytes the target sent, reported OK", len(rp.Body), len(want)), rep)
+				} else if rp.Status == "OK" && !bytes.Equal(rp.Body, want) {
 					ctx.Monitor("C03/reply-not-intact", "the reply the client decrypted differs from what the target sent", rep)
 				}
 				wantLen := 7
-				if op.AKind == 1 {
+				if net.ParseIP(targetKinds[op.AKind].ip).To4() == nil {
 					wantLen = 19
+				}
+				if rp.Status != "OK" {
+					if len(want) <= 65469-19 { // certainly fits every cipher and address form
+						ctx.Monitor("C03/reply-dropped", fmt.Sprintf("a %d-byte reply was dropped with %s", len(want), rp.Status), rep)
+					}
+					continue
 				}
 				if len(rp.From) != wantLen {
 					ctx.Monitor("C03/reply-sender-address", fmt.Sprintf("reply carries a %d-byte sender address, expected %d", len(rp.From), wantLen), rep)
@@ -240,7 +307,10 @@ func udpMonitors(ctx *Ctx, prop string, cs *udpCaseSpec, obs []udpOpObs, shutdow
 				}
 			}
 			if len(ob.Replies) != len(op.Replies) {
-				ctx.Monitor("C03/reply-lost", fmt.Sprintf("%d of %d replies reached the client", len(ob.Replies), len(op.Replies)), rep)
+				ctx.Monitor("C03/reply-lost", fmt.Sprintf("%d of %d replies were reported", len(ob.Replies), len(op.Replies)), rep)
+			}
+			if ob.Unreported > 0 {
+				ctx.Monitor("C16/reply-without-ok-report", "a datagram reached the client without an OK AddPacketFromTarget report", rep)
 			}
 		} else if ob.NewKey != nil {
 			ctx.Monitor("C04/association-without-forward", "an association was created by a datagram that was not forwarded", rep)
@@ -277,6 +347,5 @@ func udpWireLen(op *udpOp) int {
 	case "garbage", "trunc":
 		return op.N
 	}
-	al := map[int]int{0: 7, 1: 19, 2: 13, 3: 13, 9: 7}[op.AKind]
-	return saltSizes[op.C] + al + op.PLen + 16
+	return saltSizes[op.C] + len(socksAddrBytes(op.AKind, 1)) + op.PLen + 16
 }
